@@ -56,10 +56,15 @@ static std::string compare_keys(const KeySpec &orig, EVP_PKEY *imp, bool priv) {
 
 struct Imported { bool ok = false; std::string err, pem, oct; int kty = 0, bits = 0, priv = 0, alg = 0, use = 0, ops = 0; std::string curve, kid; bool has_curve = false, has_kid = false; };
 static Imported import_doc(const std::string &doc, bool in_set) {
-  Imported r; std::string d = in_set ? "{\"keys\":[" + doc + "]}" : doc;
+  // in a set the key comes last, after a good EC key and an EC key whose point is not on the curve (what was imported before must not matter);
+  // the import starts with an unrelated entry on OpenSSL's error queue (an application that uses OpenSSL elsewhere)
+  static const std::string NEIGHBOURS = [] { KeySpec ec = load_fixture("ec_p256"); JwkOpts o; o.priv = false; o.kid = "neighbour"; return jwk_json(ec, o) + ",{\"kty\":\"EC\",\"crv\":\"P-256\",\"x\":\"" + b64u_enc(std::string(32, '\1')) + "\",\"y\":\"" + b64u_enc(std::string(32, '\2')) + "\"},"; }();
+  Imported r; std::string d = in_set ? "{\"keys\":[" + NEIGHBOURS + doc + "]}" : doc;
+  pollute_openssl_error_queue();
   jwk_set_t *s = jwks_create_strn(d.data(), d.size());
-  if (!s || jwks_error(s) || jwks_item_count(s) != 1) { r.err = "set-error-or-count"; if (s) jwks_free(s); return r; }
-  const jwk_item_t *it = jwks_item_get(s, 0);
+  size_t want = in_set ? 3 : 1;
+  if (!s || jwks_error(s) || jwks_item_count(s) != want) { r.err = "set-error-or-count"; if (s) jwks_free(s); return r; }
+  const jwk_item_t *it = jwks_item_get(s, want - 1);
   if (jwks_item_error(it)) { r.err = std::string("item-error:") + jwks_item_error_msg(it); jwks_free(s); return r; }
   r.ok = true; r.kty = jwks_item_kty(it); r.bits = jwks_item_key_bits(it); r.priv = jwks_item_is_private(it); r.alg = jwks_item_alg(it); r.use = jwks_item_use(it); r.ops = jwks_item_key_ops(it);
   const char *c = jwks_item_curve(it); r.has_curve = c != nullptr; if (c) r.curve = c; const char *k = jwks_item_kid(it); r.has_kid = k != nullptr; if (k) r.kid = k;
